@@ -2180,6 +2180,9 @@ impl Kanata {
             && self.dynamic_macro_replay_state.is_none()
             && self.caps_word.is_none()
             && self.vkeys_pending_release.is_empty()
+            // A key that was output on the last tick but is no longer held by the layout (e.g. a
+            // macro cancelled between ticks) still needs one more tick to be released at the OS.
+            && (self.prev_keys.is_empty() || self.layout.b().keycodes().next().is_some())
             && !self.layout.b().states.iter().any(|s| {
                 matches!(s, State::SeqCustomPending(_) | State::SeqCustomActive(_))
                     || (pressed_keys_means_not_idle && matches!(s, State::NormalKey { .. }))
